@@ -295,7 +295,7 @@ func propC03(c *Ctx) {
 
 	c.Rule("R3.8", "the hash recorded with a position is the hash of the block whose rows were written at that position (it is what the next step's parent comparison runs against)", 2)
 	if upds, inss := m.calls(m.update), m.calls(m.insert); len(upds) == 1 && len(inss) == 1 {
-		checkPositionFromLastInserted(c, "R3.8", upds[0], m.reg.Resolve(inss[0].Call.Args[3]))
+		checkPositionFromLastInserted(c, "R3.8", upds[0], inss[0].Call.Args[3], m.reg.Resolve)
 	} else {
 		c.Violation("R3.8", "Converge/insert+update", conv.Pos(), fmt.Sprintf("expected exactly one insert and one update call in Converge, found %d/%d", len(inss), len(upds)))
 	}
@@ -681,6 +681,61 @@ func checkValidate(c *Ctx, v *ssa.Function, rule string) {
 			}
 		}
 	})
+	// every element in between: blocks[i].Num() is compared with start+i for the i of a loop that runs to the
+	// end of the slice (F-23: a correctly linked segment whose interior block carried another number was
+	// accepted, and the block map built from it was keyed by that number)
+	{
+		var everyNe []Edge
+		detailE := "no comparison of blocks[i].Num() with start+i in a loop over the segment"
+		reg0.AllInstrs(func(in ssa.Instruction) {
+			b, ok := in.(*ssa.BinOp)
+			if !ok || (b.Op != token.NEQ && b.Op != token.EQL) {
+				return
+			}
+			for _, pair := range [][2]ssa.Value{{b.X, b.Y}, {b.Y, b.X}} {
+				numSide, other := stripNum(pair[0]), stripNum(pair[1])
+				recv, isNum := valueMethodArg(numSide, "eth", "Block", "Num")
+				if !isNum {
+					if root, chain := fieldChain(numSide); chainIs(chain, c.W.Field("eth", "Block", "Header"), c.W.Field("eth", "Header", "Number")) {
+						recv, isNum = root, true
+					}
+				}
+				if !isNum {
+					continue
+				}
+				sl, idx, isElem := elemOf(recv)
+				if !isElem || !isBlocks(sl) {
+					continue
+				}
+				if _, isConst := constInt(idx); isConst {
+					continue
+				}
+				if !linEq(aff0.Of(other), aff0.Of(pStart).add(aff0.Of(idx))) {
+					continue
+				}
+				// the index runs over the whole slice (from 0 or 1: element 0 has its own test)
+				lo, hi, _, _, okR := aff0.loopRange(rootIndex(idx))
+				if !okR || !(lo.isConst() && lo.c <= 1) || !linEq(hi.add(aff0.Of(idx)).sub(aff0.Of(rootIndex(idx))), aff0.lenOf(blocks, 0).add(aff0.Of(idx)).sub(aff0.Of(rootIndex(idx)))) {
+					detailE = "the comparison with start+i does not run over the whole segment"
+					continue
+				}
+				if every, found := passesEveryCompletedIteration(b); !found || !every {
+					detailE = "the comparison with start+i is skipped in some iterations"
+					continue
+				}
+				t, f := boolEdges(b)
+				if b.Op == token.EQL {
+					t = f
+				}
+				everyNe = append(everyNe, t...)
+			}
+		})
+		okE := nonNilRet(everyNe)
+		if okE {
+			detailE = "every block of the segment is compared with the number that was asked for at its position; a mismatch is an error"
+		}
+		c.Check(rule, "validate/number-of-every-element", v.Pos(), okE, detailE)
+	}
 	c.Check(rule, "validate/first==start", v.Pos(), nonNilRet(firstNe), "first block number != start is an error")
 	c.Check(rule, "validate/last==start+limit-1", v.Pos(), nonNilRet(lastNe), "last block number != start+limit-1 is an error")
 	// linkage: for every k in [0, len-2], blocks[k+1].Header.Parent is compared
@@ -1416,4 +1471,19 @@ func eqComparisonsIn(fns []*ssa.Function) []eqComparison {
 		}
 	}
 	return out
+}
+
+// rootIndex: the loop variable an index expression is built on (i in i, i+1, i-1)
+func rootIndex(idx ssa.Value) ssa.Value {
+	idx = stripNum(stripConv(idx))
+	if b, ok := idx.(*ssa.BinOp); ok && (b.Op == token.ADD || b.Op == token.SUB) {
+		if _, isK := constInt(b.Y); isK {
+			// the range-index form (phi+1 with phi starting at -1) is itself the induction value
+			if isInduction(idx) {
+				return idx
+			}
+			return rootIndex(b.X)
+		}
+	}
+	return idx
 }
